@@ -42,6 +42,8 @@ ATLAS_Q = [
     ("a_jet_deltar", [["SelectMany", f"lambda e: {JETS}"], ["Select", "lambda j: DeltaR(j.eta(), j.phi(), 0.0, 0.0)"]]),
     ("a_root_named", [["SelectMany", f"lambda e: {JETS}"], ["Select", "lambda j: (j.pt(), j.eta())"],
                       ["AsROOTTTree", ["file.root", "treeme", ["jpt", "jeta"]]]]),
+    ("a_const_math_then_jets", [["Select", f"lambda e: (sqrt(2.0), sin(1.0), {JETS}.Count())"]]),
+    ("a_jet_sqrt", [["SelectMany", f"lambda e: {JETS}"], ["Select", "lambda j: sqrt(j.pt())"]]),
     # ones that must be refused
     ("a_bad_slice", [["Select", f"lambda e: {JETS}.Select(lambda j: j.pt())[0:2]"]]),
     ("a_bad_chain_cmp", [["SelectMany", f"lambda e: {JETS}"], ["Where", "lambda j: 1.0 < j.pt() < 3.0"], ["Select", "lambda j: j.pt()"]]),
@@ -76,6 +78,8 @@ CMS_AOD_Q = [
     ("c_mu_userfunc", [["SelectMany", 'lambda e: e.Muons("muons")'], ["Select", "lambda m: my_scale(m.pt(), 2.0)"]]),
     ("c_mu_innertrack_hits", [["SelectMany", 'lambda e: e.Muons("muons")'],
                               ["Select", "lambda m: m.innerTrack().hitPattern().numberOfValidHits()"]]),
+    ("c_const_math_then_mu", [["Select", 'lambda e: (sqrt(2.0), sin(1.0), e.Muons("muons").Count())']]),
+    ("c_mu_sqrt", [["SelectMany", 'lambda e: e.Muons("muons")'], ["Select", "lambda m: sqrt(m.pt()) + sin(m.phi())"]]),
     ("c_bad_slice", [["Select", 'lambda e: e.Muons("muons").Select(lambda m: m.pt())[0:2]']]),
     ("c_bad_raw", [["Select", 'lambda e: e.Muons("muons")']]),
     ("c_bad_method_on_double", [["SelectMany", 'lambda e: e.Muons("muons")'], ["Select", "lambda m: m.pt().eta()"]]),
@@ -97,6 +101,8 @@ CMS_MINI_Q = [
     ("m_forkmuons", [["SelectMany", 'lambda e: e.ForkMuons("forked")'], ["Select", "lambda m: m.pt()"]]),
     ("m_mu_besttrack_hits", [["SelectMany", 'lambda e: e.Muons("slimmedMuons")'],
                              ["Select", "lambda m: m.bestTrack().hitPattern().numberOfValidHits()"]]),
+    ("m_const_math_then_mu", [["Select", 'lambda e: (sqrt(2.0), sin(1.0), e.Muons("slimmedMuons").Count())']]),
+    ("m_mu_sqrt", [["SelectMany", 'lambda e: e.Muons("slimmedMuons")'], ["Select", "lambda m: sqrt(m.pt()) + sin(m.phi())"]]),
     ("m_bad_slice", [["Select", 'lambda e: e.Muons("slimmedMuons").Select(lambda m: m.pt())[0:2]']]),
     ("m_bad_raw", [["Select", 'lambda e: e.Muons("slimmedMuons")']]),
 ]
